@@ -1,14 +1,16 @@
 #!/bin/sh
-# Regenerates the schedule-exploration overlay from /repo's current working tree and builds /verif/bin/vsched with it.
+# Regenerates the schedule-exploration overlay from /repo's current working tree and builds $VERIF_ROOT/bin/vsched with it.
 export GOFLAGS=-mod=mod GOPROXY=off GOSUMDB=off GOTOOLCHAIN=local
-cd /verif/harness || exit 2
-mkdir -p /verif/bin /verif/.work
+: "${VERIF_ROOT:=$(cd "$(dirname "$0")/.." && pwd)}"
+export VERIF_ROOT
+cd $VERIF_ROOT/harness || exit 2
+mkdir -p $VERIF_ROOT/bin $VERIF_ROOT/.work
 cmp -s /repo/go.sum go.sum || cp /repo/go.sum go.sum
-go build -o /verif/bin/instr ./cmd/instr || exit 2
-OV=/verif/.work/ov-sched
+go build -o $VERIF_ROOT/bin/instr ./cmd/instr || exit 2
+OV=$VERIF_ROOT/.work/ov-sched
 rm -rf "$OV" && mkdir -p "$OV"
-/verif/bin/instr -out "$OV" -profile sched \
+$VERIF_ROOT/bin/instr -out "$OV" -profile sched \
   -drop PublicFilterAPI.NewPendingTransactions,PublicFilterAPI.NewHeads,PublicFilterAPI.Logs \
   github.com/EscanBE/evermint/v12/rpc/ethereum/pubsub \
   github.com/EscanBE/evermint/v12/rpc/namespaces/ethereum/eth/filters >"$OV/instr.log" 2>&1 || { cat "$OV/instr.log" >&2; exit 2; }
-go build -tags verif -overlay "$OV/overlay.json" -o /verif/bin/vsched ./cmd/vsched || exit 2
+go build -tags verif -overlay "$OV/overlay.json" -o $VERIF_ROOT/bin/vsched ./cmd/vsched || exit 2
